@@ -103,6 +103,19 @@ class NativeSym:
     def assume(self, text, variables):
         pass
 
+    def attr(self, obj, name):
+        return getattr(obj, name)
+
+    def mark_distinct(self, lst):
+        pass
+
+    def nt(self, clsqual, values):
+        return resolve(clsqual)(*values)
+
+    def odict(self, pairs):
+        import collections
+        return collections.OrderedDict(pairs)
+
 
 def native_outcome(thunk):
     try:
@@ -135,6 +148,9 @@ def describe(out):
 
 
 def show(v, depth=0):
+    if isinstance(v, (tuple, list, dict, str, int, float)) or v is None:
+        r = repr(v)
+        return r if len(r) < 300 else r[:300] + "..."
     if hasattr(v, "__dict__") and not callable(v) and depth < 3:
         return "%s(%s)" % (type(v).__name__, ", ".join("%s=%s" % (k, show(x, depth + 1)) for k, x in v.__dict__.items()
                                                            if not callable(x)))
@@ -170,8 +186,9 @@ def run_native_one(ob, c, cfg, model):
         S1 = NativeSym(model)
         args1 = c.inputs(S1, cfg)
         fn = resolve(c.target)
+        shown = {k: show(v) for k, v in args1.items()}
         real = native_outcome(lambda: fn(**args1))
-        res = {"real": describe(real), "inputs": {k: show(v) for k, v in args1.items()}}
+        res = {"real": describe(real), "inputs": shown}
         if ob.get("kind") == "frame":
             S0 = NativeSym(model)
             args0 = c.inputs(S0, cfg)
@@ -211,10 +228,11 @@ def run_native_one(ob, c, cfg, model):
         res["spec"] = describe(sp)
         if real[0] != sp[0]:
             res["reproduced"] = True
-        elif real[0] == "raise":
-            res["reproduced"] = type(real[1]).__name__ != type(sp[1]).__name__
         else:
-            diff = not same(real[1], sp[1])
+            if real[0] == "raise":
+                diff = type(real[1]).__name__ != type(sp[1]).__name__
+            else:
+                diff = not same(real[1], sp[1])
             if not diff and c.compare_state:
                 for k in args1:
                     if hasattr(args1[k], "__dict__") or isinstance(args1[k], (list, dict)):
